@@ -1,5 +1,8 @@
 import DecimalModel.Basic
 import DecimalModel.Round
 import DecimalModel.Arith
+import DecimalModel.Sqrt
+import DecimalModel.Context
 import DecimalModel.Spec.Round
 import DecimalModel.Spec.IEEE
+import DecimalModel.Spec.RoundInt
